@@ -82,6 +82,11 @@ func baseWorld(tss bool) *relay.Sys {
 // rawPacket is a packet of the given kind from chain src to A.
 func rawPacket(src, kind string) (packettypes.Packet, []byte) {
 	p := packettypes.Packet{SrcChain: src, DstChain: relay.A, Sequence: 50, Sender: "0x00000000000000000000000000000000000000aa", CallData: []byte{1, 2, 3}}
+	if kind == "case-variant" {
+		// the counterparty's name in another letter case is another chain: no client and no registration exist for it
+		p.SrcChain = strings.ToUpper(src)
+		p.Sequence = 51
+	}
 	if kind == "unknown-destination" {
 		p = packettypes.Packet{SrcChain: src, DstChain: "ghost-chain", Sequence: 1, Sender: "0x00000000000000000000000000000000000000aa", CallData: []byte{1, 2, 3}}
 	}
@@ -109,7 +114,7 @@ func (c p1case) String() string {
 	for _, n := range []string{"r1", "r2", "u2"} {
 		rs = append(rs, fmt.Sprintf("%s:%v", n, []string(c.Registry[n])))
 	}
-	return fmt.Sprintf("registry{%s}%s signer=%s msg=%s(%s%s) tssClientForB=%v", strings.Join(rs, " "), c.Rereg, c.Signer, c.Kind, c.Chain, map[string]string{"": "", "reverts": ", callback reverts", "unknown-destination": ", unknown destination"}[c.Packet]+map[string]string{"": "", "tss-address": ", proof field = TSS address", "empty": ", empty proof field"}[c.Proof], fmt.Sprintf("%v(tss account %s)", c.TSS, c.TSSAcct))
+	return fmt.Sprintf("registry{%s}%s signer=%s msg=%s(%s%s) tssClientForB=%v", strings.Join(rs, " "), c.Rereg, c.Signer, c.Kind, c.Chain, map[string]string{"": "", "reverts": ", callback reverts", "unknown-destination": ", unknown destination", "case-variant": ", source name in another letter case"}[c.Packet]+map[string]string{"": "", "tss-address": ", proof field = TSS address", "empty": ", empty proof field"}[c.Proof], fmt.Sprintf("%v(tss account %s)", c.TSS, c.TSSAcct))
 }
 
 func register(c *world.Chain, ctx sdk.Context, relayer string, chains regEntry) {
@@ -214,7 +219,7 @@ func Part1(r *ev.Run, tier string) (evals, nontrivial int64) {
 					for _, ch := range []string{"B", "C"} {
 						pkts := []string{""}
 						if kind == "recv" {
-							pkts = append(pkts, "reverts")
+							pkts = append(pkts, "reverts", "case-variant")
 						}
 						proofs := []string{""}
 						if tss && ch == "B" && kind != "upd" {
@@ -294,6 +299,9 @@ func one(r *ev.Run, w0 *relay.Sys, c p1case) bool {
 	why := ""
 	if c.Kind != "ack" && !reg.has(c.Chain) {
 		authorised, why = false, "signer is not registered as relayer for "+c.Chain
+	}
+	if c.Packet == "case-variant" {
+		authorised, why = false, "the packet names a chain (other letter case) for which neither a client nor a relayer registration exists"
 	}
 	if tssHere && c.Signer != c.TSSAcct {
 		authorised, why = false, "counterparty is TSS-secured and the signer is not the configured TSS account"
